@@ -47,8 +47,16 @@ class Scenario:
             val = f"p{i}"
             self.sent.setdefault(key_of(k), []).append(val)
             drive(gw.send(msg_of(k, val)))
+        # the node has itself reported, for key A, the very value sender 0 will send first (and for key B a parked one)
+        for line in ("1;3;1;0;2;s00", "1;3;1;0;3;p1"):
+            t.lines.append(line)
+            drive(agen.__anext__())
         assert not t.log, t.log
         t.sync = False
+        # what the listener receives: the wake, optionally followed by echoes of earlier commands (ack flag set)
+        self.script = [f"1;255;3;0;{self.wt};0"] + [f"1;3;1;1;2;{e}" for e in cfg.get("echoes", [])]
+        self.script_pos = 0
+        self.fail_budget = cfg.get("faults", 0)
         self.errors: list[str] = []
         self.nontrivial = False
         self.wake_delivered = False
@@ -57,9 +65,17 @@ class Scenario:
         self.nsenders = len(cfg["senders"])
 
     async def _listen(self):
+        from aiomysensors.exceptions import TransportError
+
         agen = self.gw.listen()
         try:
-            await agen.__anext__()
+            for _ in self.script:
+                try:
+                    await agen.__anext__()
+                except TransportError:
+                    # a flush write failed: reported to the caller of listen, who goes on listening
+                    await agen.aclose()
+                    agen = self.gw.listen()
         finally:
             await agen.aclose()
 
@@ -74,19 +90,26 @@ class Scenario:
     # -- environment ----------------------------------------------------------
     def enabled(self) -> list:
         evs = []
-        if not self.wake_delivered and self.t.pending_read is not None:
-            evs.append("wake")
+        if self.script_pos < len(self.script) and self.t.pending_read is not None:
+            evs.append("wake" if self.script_pos == 0 else "echo")
         for i in range(len(self.t.pending_writes)):
             evs.append(f"write:{i}")
+            if self.fail_budget > 0:
+                evs.append(f"write:{i}:fail")
         for i in range(self.nsenders):
             if i not in self.sender_tasks:
                 evs.append(f"spawn:{i}")
         return evs
 
     def fire(self, label: str) -> None:
-        if label == "wake":
+        if label in ("wake", "echo"):
             self.wake_delivered = True
-            self.t.deliver(f"1;255;3;0;{self.wt};0")
+            self.t.deliver(self.script[self.script_pos])
+            self.script_pos += 1
+        elif label.endswith(":fail"):
+            self.fail_budget -= 1
+            self.nontrivial = True
+            self.t.complete_write(int(label.split(":")[1]), ok=False)
         elif label.startswith("write:"):
             self.t.complete_write(int(label.split(":")[1]))
         elif label.startswith("spawn:"):
@@ -95,7 +118,7 @@ class Scenario:
 
     def finished(self) -> bool:
         return (
-            self.wake_delivered
+            self.script_pos >= len(self.script)
             and len(self.sender_tasks) == self.nsenders
             and self.listener.done()
             and all(t.done() for t in self.sender_tasks.values())
@@ -127,7 +150,8 @@ class Scenario:
                 bad("final-wake-raised", f"final wake of node {n} raised {exc!r}")
                 agen = self.gw.listen()
         written: dict[tuple, list[str]] = {}
-        for line in self.t.log:
+        # a write that failed never reached the node: only completed writes count, in the order they were issued
+        for line in self.t.written():
             f = line.rstrip("\n").split(";", 5)
             if f[2] == "3" and f[4] == "19":
                 continue  # presentation requests are not application commands
@@ -168,6 +192,12 @@ def configs(ctx: core.Ctx) -> list:
         {"parked": [A, B, C], "senders": [[A, B], [C, E]]},
         {"parked": [I, A], "senders": [[I], [A]]},
         {"parked": [A, I, J], "senders": [[J, I]]},
+        # an echo (ack flag set) of an earlier command for key A arrives after the wake
+        {"parked": [A], "senders": [[A]], "echoes": ["p0"]},
+        {"parked": [A, B], "senders": [[A], [B]], "echoes": ["s00", "p0"]},
+        # one flush write may fail (C08 under races): nothing is lost, the newest value wins
+        {"parked": [A], "senders": [[A]], "faults": 1},
+        {"parked": [A, B], "senders": [[B], [A]], "faults": 1},
     ]
     if ctx.quick:
         versions = ["2.1", "2.2"]
